@@ -35,14 +35,40 @@ theorem live_screen (cfg : Cfg) (ov : Overflow) (r0 : Frame) (h : List Op)
   simp only [wf, Bool.and_eq_true, decide_eq_true_eq] at hwf
   exact (history_main hfix hwf.1 h _ _ _ (good_init cfg ov r0 hwf.1) hwf.2).1
 
-/- NOT PROVED (full multi-session statement, kept visible): for histories in which a stopped display is
-started again (with the repaired `stop`, `resetShape = true`),
-  `∃ k, rows = finished ++ printed ++ lastFrame ++ replicate k []`
-where `finished` interleaves the printed lines with the final frames of the earlier non-transient
-sessions.  The invariant `Good` is re-established by the repaired `stop` (shape = none, nothing on
-display), so the induction of `history_main` would go through session by session; what is missing is the
-bookkeeping of `finished` in `View`.  At present this case is covered by the model + per-operation
-correspondence + direct evaluation on real rich, and by the witness `old_restart_erases_printed_lines`. -/
+/-- **live_screen_sessions** (any number of sessions on the same display object).  For every history in
+which `start` / `stop` may occur anywhere — a stopped display started again, prints between the sessions —
+with the repaired `stop` (`resetShape = true`: the recorded shape is forgotten and `vertical_overflow`
+restored): the screen shows exactly the finished output (printed lines and the frames left by the stopped
+non-transient sessions, in order; `finished`), then the frame of the session still running
+(`liveFrameOf`, `[]` if none), then blank rows only.  `wfM` is `wf` with `stop` allowed anywhere. -/
+theorem live_screen_sessions (cfg : Cfg) (ov : Overflow) (r0 : Frame) (h : List Op)
+    (hfix : cfg.bareBypass = false) (hreset : cfg.resetShape = true) (hwf : wfM cfg ov r0 h = true) :
+    ∃ k, (replay cfg.height Screen.init (emit cfg ov r0 h)).rows =
+      finished cfg ov r0 h ++ liveFrameOf cfg ov r0 h ++ List.replicate k [] := by
+  simp only [wfM, Bool.and_eq_true, decide_eq_true_eq] at hwf
+  obtain ⟨k, hs, _⟩ := (history_multi hfix hreset hwf.1 h _ _ _ (good_init cfg ov r0 hwf.1) hwf.2).1.shown
+  exact shown_rows hs
+
+/-- …and during all of it the cursor never goes above the first row under the finished output. -/
+theorem cursor_never_above_region_sessions (cfg : Cfg) (ov : Overflow) (r0 : Frame) (h : List Op)
+    (hfix : cfg.bareBypass = false) (hreset : cfg.resetShape = true) (hwf : wfM cfg ov r0 h = true) :
+    AboveRegionM cfg (initSt ov r0) {} Screen.init h := by
+  simp only [wfM, Bool.and_eq_true, decide_eq_true_eq] at hwf
+  exact (history_multi hfix hreset hwf.1 h _ _ _ (good_init cfg ov r0 hwf.1) hwf.2).2.2
+
+/-- **cursor_hidden_iff_started**: for *every* history (any operations, any faults, every code variant,
+the caller catching whatever is raised) the cursor is hidden exactly while the display is started. -/
+theorem cursor_hidden_iff_started (cfg : Cfg) (fails : Nat → Bool) (H : Nat) (ops : List Op) :
+    ∀ (st : St) (s : Screen), Bal cfg st → s.visible = !st.started →
+      (replay H s (run cfg fails st ops).2.1).visible = !(run cfg fails st ops).1.started := by
+  induction ops with
+  | nil => intro st s _ hv; simpa [run, replay_nil] using hv
+  | cons op rest ih =>
+    intro st s hb hv
+    have hs := step_ctl cfg fails st op hb s.visible hv
+    have := ih (step cfg fails st op).st (replay H s (step cfg fails st op).out) hs.1
+      (by rw [replay_visible]; exact hs.2)
+    simpa [run, replay_append] using this
 
 /-- **cursor_never_above_region.**  For every operation of a well-formed history, while its output is
 replayed the cursor never visits a row above the first row below the lines printed before that
